@@ -23,6 +23,7 @@ ERRATA_OPCODE = {
 }
 # wrong mandatory prefix / map in the database (the assembler and llvm-mc agree on the manuals' value)
 ERRATA_FIELDS = {
+    ("shrd", "66 0F AC /r ib"): {"pp": ""},       # written with 66 for the whole r16/r32/r64 group; the group index gives the prefix
     ("vmovups", "VEX.Lxy.66.0F.WIG 10 /r"): {"pp": "NP"},
     ("vmovups", "VEX.Lxy.66.0F.WIG 11 /r"): {"pp": "NP"},
     ("vmovupd", "VEX.Lxy.NP.0F.WIG 10 /r"): {"pp": "66"},
